@@ -293,3 +293,40 @@ def _(h):
     h.eq('rotx', base.rotx(1) * k, base.rotx(1.0) * k)
     h.eq('trotx t', base.trotx(1, t=[1, 2, 3]) * k, base.trotx(1.0, t=[1.0, 2.0, 3.0]) * k)
     h.eq('qqmul', base.qqmul([1, 2, 3, 4], [5, 6, 7, 8]) * k, base.qqmul([1.0, 2.0, 3.0, 4.0], [5.0, 6.0, 7.0, 8.0]) * k)
+
+
+# ----------------------------------------------------------------------------- angles RETURNED in degrees, single- and multi-valued receivers
+
+DEG_OUT = {
+    'SO3.rpy': lambda X, u: X.rpy(unit=u), 'SO3.rpy-xyz': lambda X, u: X.rpy(unit=u, order='xyz'), 'SO3.eul': lambda X, u: X.eul(unit=u),
+    'SO3.eul-flip': lambda X, u: X.eul(unit=u, flip=True),
+}
+
+for _name, _f in DEG_OUT.items():
+    for _m in (1, 2):
+        @claim(f'deg-out:{_name}:len{_m}')
+        def _(h, f=_f, m=_m):
+            Rs = [h.arr(rotz_ref(h, h.angle(f'a{i}'))) for i in range(m)]
+            for cls, mk in ((SO3, lambda R: R), (SE3, lambda R: hom(h, R, [1, 2, 3]))):
+                X = cls([mk(R) for R in Rs] if m > 1 else mk(Rs[0]), check=False)
+                r, d = np.asarray(f(X, 'rad')), np.asarray(f(X, 'deg'))
+                h.true(f'{cls.__name__}: same shape', r.shape == d.shape)
+                if r.shape == d.shape:
+                    h.eq(f'{cls.__name__}: deg = rad * 180/pi', d, r * (180 / math.pi), tol=1e-9, scale=180)
+
+
+@claim('deg-out:UnitQuaternion')
+def _(h):
+    s, c = h.sincos(h.angle('hf'))
+    q = UnitQuaternion(h.arr([c, 0, 0, s]))
+    for nm, f in (('rpy', lambda u: q.rpy(unit=u)), ('eul', lambda u: q.eul(unit=u))):
+        h.eq(f'{nm}: deg = rad * 180/pi', f('deg'), np.asarray(f('rad')) * (180 / math.pi), tol=1e-9, scale=180)
+
+
+@claim('deg-out:SO2-SE2')
+def _(h):
+    for m in (1, 2):
+        Rs = [h.arr(rot2_ref(h, h.angle(f'a{m}{i}'))) for i in range(m)]
+        X = SO2(Rs if m > 1 else Rs[0], check=False)
+        r, d = X.theta(), X.theta(unit='deg')
+        h.eq(f'SO2.theta len {m}', np.asarray(d, dtype=object), np.asarray(r, dtype=object) * (180 / math.pi), tol=1e-9, scale=180)
